@@ -167,6 +167,22 @@ pub fn expectation(cfg: &Cfg, a: &Analysis, all_productive: bool, input: &[u16])
     }
 }
 
+/// KNOWN FINDING C01/lr-epsilon-loop: with unproductive nonterminals the LR construction (kiki's and the
+/// textbook's alike) can contain an epsilon-reduction cycle; the emitted parser then never returns on inputs
+/// that reach it. Such (grammar, input) pairs — exactly those on which the reference canonical LR(1) driver
+/// itself does not stop — are excluded by construction and counted.
+pub fn exclude_lr_loops(cfg: &Cfg, a: &Analysis, inputs: &mut Vec<Vec<u16>>, st: &mut Stats) {
+    if a.sets.productive.iter().all(|b| *b) {
+        return;
+    }
+    let before = inputs.len();
+    inputs.retain(|inp| !matches!(cfg::drive_bounded(cfg, a.lr1.start, &a.lr1_tables, inp, 20_000), Parse::Diverged));
+    let n = (before - inputs.len()) as u64;
+    if n > 0 {
+        *st.extra.entry("excluded-known:lr-epsilon-loop".into()).or_insert(0) += n;
+    }
+}
+
 pub struct E2Case {
     pub spec: Spec,
     pub naming: Naming,
@@ -351,6 +367,148 @@ pub fn judge_case(ctx: &Ctx, c: &E2Case, which: Which) -> Result<Vec<Expect>, Fa
     Ok(expects)
 }
 
+// ---------------------------------------------------------------------------
+// Table-level half (E1): the ACTION/GOTO tables, start state and per-rule pop counts are read from the
+// emitted TEXT and interpreted by a small LR driver; breadth (100x more grammars than the compiled half).
+// It cannot see bugs in the emitted driver loop or reduce functions — that is what the compiled half decides.
+
+#[derive(Debug, PartialEq, Eq)]
+enum TableRun {
+    Accept,
+    Error(Option<usize>),
+    Diverged,
+    Broken(String),
+}
+
+fn drive_emitted(e: &crate::emitted::Emitted, nt_col: &std::collections::BTreeMap<&str, usize>, n_t: usize, input: &[u16]) -> TableRun {
+    use crate::emitted::ECell;
+    let mut states = vec![e.start];
+    let mut i = 0usize;
+    let mut steps = 0usize;
+    loop {
+        steps += 1;
+        if steps > 400_000 {
+            // more than 400 000 reductions without consuming a token
+            return TableRun::Diverged;
+        }
+        let q = if i < input.len() { input[i] as usize } else { n_t };
+        let top = *states.last().unwrap();
+        let Some(cell) = e.action.get(top).and_then(|r| r.get(q)) else { return TableRun::Broken(format!("no ACTION cell [{top}][{q}]")) };
+        match *cell {
+            ECell::Err => return TableRun::Error(if i < input.len() { Some(i) } else { None }),
+            ECell::Accept => return TableRun::Accept,
+            ECell::Shift(to) => {
+                if i >= input.len() {
+                    return TableRun::Broken("shift on end of input".into());
+                }
+                states.push(to);
+                i += 1;
+                steps = 0;
+            }
+            ECell::Reduce(r) => {
+                let Some((pops, kind)) = e.rules.get(r) else { return TableRun::Broken(format!("no rule R{r}")) };
+                if *pops >= states.len() {
+                    return TableRun::Broken(format!("R{r} pops {pops} of {} states", states.len()));
+                }
+                states.truncate(states.len() - pops);
+                let Some(col) = nt_col.get(kind.as_str()) else { return TableRun::Broken(format!("unknown nonterminal kind {kind}")) };
+                match e.goto.get(*states.last().unwrap()).and_then(|r| r.get(*col)) {
+                    Some(Some(to)) => states.push(*to),
+                    // the emitted driver returns Err(next token) in this case
+                    _ => return TableRun::Error(if i < input.len() { Some(i) } else { None }),
+                }
+            }
+        }
+    }
+}
+
+fn table_level_test(raw: &RawGrammar, which: Which, st: &mut Stats) -> Result<(), Failure> {
+    let g = grammar_case(raw);
+    let Ok(a) = Analysis::new(&g.cfg) else {
+        st.discard("reference LR(1) collection exceeds cap");
+        return Ok(());
+    };
+    let Outcome::Ok(text) = outcome::generate(&g.text) else {
+        st.discard("not accepted by kiki");
+        return Ok(());
+    };
+    if !a.lalr_ok() {
+        st.discard("kiki accepted a grammar the reference finds conflicting (C04 judges that)");
+        return Ok(());
+    }
+    let Ok(e) = crate::emitted::read(&text) else {
+        st.discard("emitted tables unreadable (C17 judges that)");
+        return Ok(());
+    };
+    let nt_col: std::collections::BTreeMap<&str, usize> = e.nt_cols.iter().map(|(n, c)| (n.as_str(), *c)).collect();
+    let choice_src = [raw.seed_ix, raw.start, raw.slots.0, raw.slots.1, 0x3333, 0xA5A5];
+    let mut ch = Chooser::new(&choice_src);
+    let mut inputs = inputs_for(&g.cfg, &a, &mut ch, Which::C02);
+    exclude_lr_loops(&g.cfg, &a, &mut inputs, st);
+    let all_productive = a.sets.productive.iter().all(|b| *b);
+    let sh = cfg::shape(&g.cfg, &a.sets);
+    let canon = cfg::canon(&g.cfg);
+    for inp in &inputs {
+        let case = || json!({"source": g.text, "failing_input": inp, "level": "tables read from the emitted text"});
+        let ea = cfg::earley(&g.cfg, &a.sets, inp);
+        let want_ix = if all_productive {
+            ea.dead_at
+        } else {
+            match cfg::drive(&g.cfg, a.lr1.start, &a.lr1_tables, inp) {
+                Parse::Error(ix) => ix,
+                _ => None,
+            }
+        };
+        let got = drive_emitted(&e, &nt_col, g.cfg.n_t, inp);
+        st.extra.entry("table-level-strings".into()).and_modify(|x| *x += 1).or_insert(1);
+        match (&got, which) {
+            (TableRun::Broken(m), _) => return Err(Failure::internal("table-level-broken", format!("cannot interpret the emitted tables: {m} (C17 judges the tables)"), case())),
+            (TableRun::Diverged, Which::C01) => {
+                return Err(Failure::new("tables-loop", format!("interpreting the emitted tables on {inp:?} does not terminate (step bound exceeded)"), case()))
+            }
+            (TableRun::Accept, Which::C01) if !ea.accepted => {
+                return Err(Failure::new("accepts-non-sentence", format!("the emitted tables accept {inp:?}, which is not derivable from the start symbol (Earley)"), case()))
+            }
+            (TableRun::Error(ix), Which::C01) if ea.accepted => {
+                return Err(Failure::new("rejects-sentence", format!("the emitted tables reject {inp:?} at {ix:?}, but it is derivable from the start symbol (Earley)"), case()))
+            }
+            (TableRun::Error(ix), Which::C03) if !ea.accepted && *ix != want_ix => {
+                return Err(Failure::new(
+                    "wrong-error-token",
+                    format!("the emitted tables stop at {ix:?} on {inp:?}; the first offending token is {want_ix:?} ({})", if all_productive { "Earley viable-prefix index" } else { "canonical LR(1) driver" }),
+                    case(),
+                ))
+            }
+            _ => {}
+        }
+        let nontrivial = match which {
+            Which::C03 => !ea.accepted && (matches!(want_ix, Some(i) if i >= 1) || (want_ix.is_none() && !inp.is_empty())),
+            _ => (sh.recursive || sh.nullable_nts > 0) && inp.len() >= 2,
+        };
+        if nontrivial {
+            st.nontrivial(&("table-level", canon.as_str(), inp));
+        }
+    }
+    st.class("table-level:grammars");
+    Ok(())
+}
+
+/// Probe of the known finding `lr-epsilon-loop`: judges one (grammar, input) pair at table level.
+pub fn table_level_probe(case: &Value) -> Result<(), Failure> {
+    let text = case_text(case)?;
+    let g = gcase_from_text(&text).map_err(|e| Failure::internal("bad-replay", e, case.clone()))?;
+    let inp: Vec<u16> = case["failing_input"].as_array().map(|a| a.iter().filter_map(|x| x.as_u64().map(|n| n as u16)).collect()).unwrap_or_default();
+    let Outcome::Ok(emitted_text) = outcome::generate(&g.text) else {
+        return Err(Failure::internal("not-accepted", "kiki does not accept the probe grammar".into(), case.clone()));
+    };
+    let e = crate::emitted::read(&emitted_text).map_err(|m| Failure::internal("unreadable", m, case.clone()))?;
+    let nt_col: std::collections::BTreeMap<&str, usize> = e.nt_cols.iter().map(|(n, c)| (n.as_str(), *c)).collect();
+    match drive_emitted(&e, &nt_col, g.cfg.n_t, &inp) {
+        TableRun::Diverged => Err(Failure::new("tables-loop", format!("interpreting the emitted tables on {inp:?} does not terminate (epsilon-reduction cycle)"), case.clone())),
+        _ => Ok(()),
+    }
+}
+
 fn first_errors(diag: &str) -> String {
     let mut out = String::new();
     let mut n = 0;
@@ -409,7 +567,8 @@ fn build_case(raw: &RawE2, which: Which, st: &mut Stats) -> Option<(E2Case, Anal
     let text = crate::ast::render_plain(&spec::to_rfile(&spec, &naming).atoms());
     let g = GCase { spec: spec.clone(), source, cfg: cfg.clone(), naming: naming.clone(), text: text.clone() };
     let sh = classify(st, &g, &a);
-    let inputs = inputs_for(&cfg, &a, &mut ch, which);
+    let mut inputs = inputs_for(&cfg, &a, &mut ch, which);
+    exclude_lr_loops(&cfg, &a, &mut inputs, st);
     Some((E2Case { spec, naming, payload, text, inputs }, a, sh))
 }
 
@@ -571,11 +730,30 @@ pub fn run(ctx: &Ctx, which: Which) -> i32 {
             }
         }
     }
+    if which == Which::C01 {
+        for f in load_findings(&ctx.root).into_iter().filter(|f| f.property == "C01" && f.status == "open") {
+            match table_level_probe(&f.probe) {
+                Ok(()) => rep.notes.push(format!("known finding {} no longer reproduces on its probe", f.id)),
+                Err(fl) if fl.internal => rep.internal.push(fl),
+                Err(fl) => {
+                    if fl.signature().contains(&f.signature) {
+                        rep.known_lines.push(format!("{} [{}]", f.what, f.id));
+                    } else {
+                        rep.violations.push(fl);
+                    }
+                }
+            }
+        }
+    }
     let mut c2 = ctx.clone();
     c2.shrink_iters = 48;
     let cases = ctx.budget(640, 12_000);
     let out = run_sharded(&c2, label, cases, raw_e2, |raw, st| e2_test(ctx, raw, which, st));
     rep.absorb("E2-rustc-compiled-parsers", out);
+    if which != Which::C02 {
+        let out = run_sharded(ctx, &format!("{label}-tables"), ctx.budget(40_000, 800_000), gen::raw_grammar, |raw, st| table_level_test(raw, which, st));
+        rep.absorb("E1-table-level", out);
+    }
     quota_check(&mut rep, &["inputs:accepted", "inputs:rejected", "shape:recursive", "shape:has-nullable-nonterminal"]);
     rep.finish()
 }
